@@ -37,6 +37,9 @@ const (
 	c16Count
 )
 
+// c16LastStore hands the simulated store of the stack built last to the trial (one trial at a time per worker).
+var c16LastStore *SimStore
+
 func c16StackName(k int) string {
 	return []string{"mem", "keyvalue+SimStore(sharing)", "keyvalue+SimStore(copying)", "mount", "Sub(mem)", "cache", "tar", "os.FS"}[k]
 }
@@ -60,8 +63,9 @@ func c16Build(t *T, k int, children []c16Child) (hackpadfs.FS, string, map[strin
 	noop := func() {}
 	switch k {
 	case c16Mem, c16KVShared, c16KVCopy:
-		fs, _ := newSUT(t, k)
+		fs, st := newSUT(t, k)
 		c16Populate(t, fs, "d", children)
+		c16LastStore = st
 		return fs, "d", nil, noop
 	case c16Mount:
 		// the listed directory is the root of the FS mounted at m; its child "n" is itself a mount point
@@ -133,6 +137,12 @@ func runC16(t *T) {
 	}
 	fs, dir, mounts, cleanup := c16Build(t, k, children)
 	defer cleanup()
+	// fault mode (stacks over the simulated store): a store call made by a page read fails once; the failed
+	// page may deliver nothing, but the pages after it still have to deliver every child exactly once
+	var faultStore *SimStore
+	if (k == c16KVShared || k == c16KVCopy) && c.Chance(1, 3) {
+		faultStore = c16LastStore
+	}
 	want := map[string]c16Child{}
 	for _, ch := range children {
 		want[ch.name] = ch
@@ -148,7 +158,7 @@ func runC16(t *T) {
 	if err != nil {
 		t.Fail("listing", fam+":readdir-fails", fmt.Sprintf("ReadDir(%q) with %d children failed: %v", dir, len(want), err))
 	}
-	c16CheckEntries(t, fs, dir, ents, want, mounts, fam+":byname", true)
+	c16CheckEntries(t, fs, dir, ents, want, want, mounts, fam+":byname", true)
 
 	// paged reads of a fresh handle
 	rounds := 1 + c.Draw(2)
@@ -161,7 +171,13 @@ func runC16(t *T) {
 		fresh := true
 		total := len(want)
 		var sizes []int
-		for call := 0; call < total+6; call++ {
+		faultsLeft := 0
+		faulted, failedLast := false, false
+		if faultStore != nil {
+			faultsLeft = 1 + c.Draw(2)
+		}
+		budget := total + 6 + faultsLeft
+		for call := 0; call < budget; call++ {
 			var size int
 			switch c.Weighted(3, 2, 1, 1, 1, 1, 1) {
 			case 0:
@@ -189,11 +205,37 @@ func runC16(t *T) {
 				size = 1
 			}
 			sizes = append(sizes, size)
+			var plan *faultPlan
+			if faultsLeft > 0 && size > 0 && c.Chance(1, 3) {
+				faultsLeft--
+				plan = &faultPlan{t: t, at: c.Draw(3), kind: []string{"Get", "", "ReadDirNames"}[c.Weighted(3, 1, 1)], armed: true}
+				faultStore.plan = plan
+			}
 			page, err := hackpadfs.ReadDirFile(f, size)
+			if faultStore != nil {
+				faultStore.plan = nil
+			}
 			t.Logf("round %d ReadDir(%d) -> %d entries, %s", r, size, len(page), errClass(err))
 			remainingBefore := total - len(all)
 			all = append(all, page...)
 			sig := fam + ":page"
+			if plan != nil && plan.fired > 0 {
+				t.Stat("c16:page-read-hit-by-fault")
+				faulted = true
+			}
+			if faulted {
+				sig = fam + ":page-after-store-fault"
+				if err != nil && err != io.EOF && errors.Is(err, errInjected) {
+					// the page failed with the store's error (a handle may go on failing with it: records cache
+					// a failed load): whatever it delivered counts, the listing goes on
+					failedLast = true
+					if len(page) > 0 {
+						fresh = false
+					}
+					continue
+				}
+			}
+			failedLast = false
 			switch {
 			case size <= 0:
 				if err != nil || len(page) != total {
@@ -225,7 +267,16 @@ func runC16(t *T) {
 			}
 		}
 		f.Close()
-		c16CheckEntries(t, fs, dir, all, want, mounts, fam+":pages", false)
+		pagesSig := fam + ":pages"
+		wantPages := want
+		if faulted {
+			pagesSig = fam + ":pages-with-store-fault"
+			if failedLast {
+				// the listing never got to its end: what was delivered must still be right, duplicate-free
+				wantPages = nil
+			}
+		}
+		c16CheckEntries(t, fs, dir, all, want, wantPages, mounts, pagesSig, false)
 	}
 
 	// listing a non-directory
@@ -244,7 +295,8 @@ func runC16(t *T) {
 }
 
 // c16CheckEntries: every child exactly once, (sorted), name/kind/info agreeing with Stat.
-func c16CheckEntries(t *T, fs hackpadfs.FS, dir string, ents []hackpadfs.DirEntry, want map[string]c16Child, mounts map[string]bool, sig string, mustSort bool) {
+// complete (nil: not required) names the children that all have to be there.
+func c16CheckEntries(t *T, fs hackpadfs.FS, dir string, ents []hackpadfs.DirEntry, want, complete map[string]c16Child, mounts map[string]bool, sig string, mustSort bool) {
 	seen := map[string]int{}
 	var names []string
 	for _, e := range ents {
@@ -259,7 +311,7 @@ func c16CheckEntries(t *T, fs hackpadfs.FS, dir string, ents []hackpadfs.DirEntr
 			t.Fail("extra", sig+":unexpected-entry", fmt.Sprintf("%q is listed but was never created (%v)", name, names))
 		}
 	}
-	for name := range want {
+	for name := range complete {
 		if seen[name] == 0 {
 			t.Fail("missing", sig+":missing-entry", fmt.Sprintf("child %q is missing from the listing of %q (%d of %d returned: %v)", name, dir, len(names), len(want), names))
 		}
